@@ -93,8 +93,20 @@ def dense_spec(rng, nt=None, nc=None, ns=None, nsw=None, curated=None, whiten=No
         spec['channel_shanks'] = [rng.randrange(2) for _ in range(nc)]
     if probes:
         spec['channel_probes'] = sorted(rng.randrange(2) for _ in range(nc))
-    w = whiten if whiten is not None else rng.pick(['none', 'diag', 'diag+inv'])
-    if w != 'none':
+    w = whiten if whiten is not None else rng.pick(['none', 'diag', 'diag+inv', 'tri', 'tri+inv'])
+    if w.startswith('tri'):
+        # non-symmetric whitening with an exactly representable inverse: unit upper-triangular, small integers
+        wm = np.eye(nc)
+        for i in range(nc):
+            for j in range(i + 1, nc):
+                if rng.random() < .5:
+                    wm[i, j] = rng.randrange(-2, 3)
+        inv = np.round(np.linalg.inv(wm))
+        assert np.array_equal(wm @ inv, np.eye(nc))
+        spec['whitening'] = wm.tolist()
+        if w == 'tri+inv':
+            spec['whitening_inv'] = inv.tolist()
+    elif w != 'none':
         diag = [rng.pick([.5, 1., 2., 4.]) for _ in range(nc)]
         spec['whitening'] = [[diag[i] if i == j else 0. for j in range(nc)] for i in range(nc)]
         if w == 'diag+inv':
@@ -115,5 +127,5 @@ def wmi_of(spec):
     if spec.get('whitening_inv') is not None:
         return spec['whitening_inv']
     if spec.get('whitening') is not None:
-        return [[1. / spec['whitening'][i][i] if i == j else 0. for j in range(nc)] for i in range(nc)]
+        return np.round(np.linalg.inv(np.array(spec['whitening'])) * 4).__truediv__(4).tolist()
     return [[1. if i == j else 0. for j in range(nc)] for i in range(nc)]
